@@ -148,6 +148,15 @@ def match_known(mod, ctx, plan, v):
 
 def worker_main(prop, tier, w, nworkers, active, out_path, only=None):
     env.setup_paths()
+    cov = None
+    if os.environ.get("VERIF_COVERAGE"):
+        # measurement aid (tools/coverage_report.sh): which lines of the library the generators reach
+        import coverage
+        cov = coverage.Coverage(data_file=os.path.join(os.environ["VERIF_COVERAGE"], "cov_%s_%d" % (prop, w)),
+                                source=[os.path.join(env.repo_dir(), "mabwiser")], branch=True)
+        cov.start()
+        import atexit
+        atexit.register(lambda: (cov.stop(), cov.save()))
     import hypothesis
     from hypothesis import HealthCheck, Phase, given, settings
     mod = load_check(prop)
